@@ -268,7 +268,7 @@ theorem frame_orderReceipts (c : Nat) (hc : c ≤ maxChainId) (os : List LimitOr
       | exact (fs.trans (frame_poolAdd _ _ _ (liquidityId_lt hc))).trans f
       | exact (fs.trans (frame_accountAdd ‹accountAdd _ _ _ = Except.ok _›)).trans f
 
-theorem frame_payReceipts (c : Nat) (hc : c ≤ maxChainId) (os : List (Bytes × LimitOrder)) (res : List (Bytes × Nat)) (s : State)
+theorem frame_payReceipts (c : Nat) (hc : c ≤ maxChainId) (os : List (OrderKey × LimitOrder)) (res : List (OrderKey × Nat)) (s : State)
     (acc : List Nat) (r : State × List Nat) (h : payReceipts c os res s acc = .ok r) : SellFrame s r.1 := by
   induction os generalizing s acc with
   | nil => simp [payReceipts] at h; subst h; exact SellFrame.refl _
